@@ -404,5 +404,13 @@ def run(tier, seed, part=None):
             res = explorer.explore(SPEC, params, depth, dev, time_cap=cap, seed=seed, label=f"at{gen}/{extra}")
             chk.add_explorer(f"at{gen}/" + ("mid-reaction-status" if extra.get("midpush") else "poll" if extra.get("poll") else ("silent-console" if extra.get("max_silent") else "reconnect")), SPEC, params, res,
                              {"depth": depth, "deviations": dev, **extra})
+    # the refresh hangs on the socket telling its subscribers about every new connection, whatever happened to the ones
+    # before - explored at the socket level with C07's scenario (faults at every turn boundary), judged by one clause:
+    # the last notification says connected and belongs to the connection that is live
+    for gen in (4, 5):
+        depth, dev = (4, 1) if tier == "quick" else (6, 1)
+        params = {"gen": gen, "notify_clause": True, "bad_kinds": [], "raising": False}
+        res = explorer.explore("pvmc.props.c07:Scenario", params, depth, dev, time_cap=cap, seed=seed, label=f"at{gen}/socket-notifications")
+        chk.add_explorer(f"at{gen}/socket-notifications", "pvmc.props.c07:Scenario", params, res, {"depth": depth, "deviations": dev})
     chk.add_audit(SPEC, {"gen": 4, "macro": True, "max_tick": 2, "max_loss": 1, "max_edit": 1, "max_adv": 1, "poll": True}, 4, 0, limit=3000 if tier == "thorough" else 400)
     return chk.finish()
